@@ -23,11 +23,15 @@ type c14Prog struct {
 	Files map[string]string `json:"files"`
 	Main  string            `json:"main"`
 	Kind  string            `json:"kind"`
+	// Alt: other contents for some files of the program (version 1 of the tree; version 0 = Files). A step names the version
+	// that is on disk when it transpiles: files are rewritten IN PLACE between calls on the same transpiler object.
+	Alt map[string]string `json:"alt,omitempty"`
 }
 
 type c14Step struct {
-	Prog   int    `json:"prog"`
-	Target string `json:"target"`
+	Prog    int    `json:"prog"`
+	Target  string `json:"target"`
+	Version int    `json:"version,omitempty"`
 }
 
 type purityCase struct {
@@ -80,11 +84,23 @@ func checkPurity(c purityCase) (kind string, msg string) {
 		run.WriteFiles(d, p.Files)
 		paths[i] = filepath.Join(d, p.Main)
 	}
+	// setVersion puts version v of program i on disk (in place)
+	setVersion := func(i, v int) {
+		d := filepath.Join(dirA, fmt.Sprintf("p%d", i))
+		run.WriteFiles(d, c.Progs[i].Files)
+		if v == 1 {
+			run.WriteFiles(d, c.Progs[i].Alt)
+		}
+	}
 	// (1) history on one transpiler object
 	tobj := newTranspilerObj()
 	model := map[string]string{}
 	for n, st := range c.Steps {
 		key := fmt.Sprintf("%d/%s", st.Prog, st.Target)
+		if len(c.Progs[st.Prog].Alt) > 0 {
+			setVersion(st.Prog, st.Version)
+			key = fmt.Sprintf("%d/%s/v%d", st.Prog, st.Target, st.Version)
+		}
 		obs := obsOf(transpileWith(tobj, paths[st.Prog], run.Target(st.Target)), dirA)
 		if strings.HasPrefix(obs, "PANIC") {
 			return "panic", fmt.Sprintf("step %d (%s): %s", n, key, obs)
@@ -99,12 +115,29 @@ func checkPurity(c purityCase) (kind string, msg string) {
 	}
 	// a fresh object must agree with the history's observations
 	for key, prev := range model {
-		var pi int
+		var pi, ver int
 		var tg string
-		fmt.Sscanf(strings.Replace(key, "/", " ", 1), "%d %s", &pi, &tg)
+		parts := strings.Split(key, "/")
+		fmt.Sscanf(parts[0], "%d", &pi)
+		tg = parts[1]
+		if len(parts) > 2 {
+			fmt.Sscanf(parts[2], "v%d", &ver)
+			setVersion(pi, ver)
+		}
 		obs := obsOf(transpileWith(newTranspilerObj(), paths[pi], run.Target(tg)), dirA)
 		if obs != prev {
 			return "interleave", fmt.Sprintf("program %d (%s), target %s: a fresh transpiler object gives different bytes than the shared one gave inside the history\n--- history\n%s\n--- fresh\n%s", pi, c.Progs[pi].Kind, tg, clip(prev), clip(obs))
+		}
+	}
+	// the processes and the relocated copy see version 0 of every program; their observations are compared with version 0
+	for i := range c.Progs {
+		if len(c.Progs[i].Alt) > 0 {
+			setVersion(i, 0)
+			for _, tg := range []string{"bash", "batch"} {
+				if v, ok := model[fmt.Sprintf("%d/%s/v0", i, tg)]; ok {
+					model[fmt.Sprintf("%d/%s", i, tg)] = v
+				}
+			}
 		}
 	}
 	// (2) fresh processes (new map seeds)
@@ -193,7 +226,7 @@ const c14Other = "func Name() string {\n\treturn \"o\"\n}\nfunc Twice(a int) int
 
 func TestC14(t *testing.T) {
 	r, e := start(t, "C14",
-		"a pool of 3-6 programs per case (generated single-file programs, multi-file programs with single/grouped imports of local files and of std, a rejected program, a program using every helper routine) and a random history of 6-30 Transpile calls over programs x {bash, batch} on ONE transpiler object (fresh converter per call); then the same programs in freshly started processes (new map iteration seeds) and from a relocated copy of the tree with another cwd. Oracle: every observation of the same (content, target) is byte-identical (error texts modulo the directory). Non-trivial = histories in which a (program, target) recurs after at least two other transpilations including one of the other target and a failing one; distinct by history + sources.",
+		"a pool of 3-6 programs per case (generated single-file programs, multi-file programs with single/grouped imports of local files and of std, a rejected program, a program using every helper routine) and a random history of 6-30 Transpile calls over programs x {bash, batch} on ONE transpiler object (fresh converter per call), during which imported files of the multi-file programs are rewritten in place between two contents; then the same programs in freshly started processes (new map iteration seeds) and from a relocated copy of the tree with another cwd. Oracle: every observation of the same (content, target) is byte-identical (error texts modulo the directory). Non-trivial = histories in which a (program, target) recurs after at least two other transpilations including one of the other target and a failing one; distinct by history + sources.",
 		[]string{"self-comparison is the property here: history, process and location must be irrelevant", "process instances are sampled (quick: 2 per case, thorough: 6), not enumerated"})
 	defer r.Flush()
 	gcfg := gen.Cfg{MaxStmts: 14, MaxDepth: 3, ExprDepth: 3, Funcs: true, MaxFuncs: 3, Slices: true, StrOps: true, LoopBudget: 8, IO: true, Panics: true, ErrSpell: true, BareExpr: true}
@@ -213,11 +246,13 @@ func TestC14(t *testing.T) {
 			case 2:
 				c.Progs = append(c.Progs, c14Prog{Kind: "imports", Main: "main.tsh", Files: map[string]string{
 					"main.tsh":       "import (\n\thp \"lib/helper.tsh\"\n\tot \"other.tsh\"\n\t\"strings\"\n)\nprint(hp.Twice(2), ot.Twice(3), hp.Name() + ot.Name(), strings.Repeat(\"ab\", 2))\n",
-					"lib/helper.tsh": c14Helper, "other.tsh": c14Other}})
+					"lib/helper.tsh": c14Helper, "other.tsh": c14Other},
+					Alt: map[string]string{"lib/helper.tsh": strings.Replace(c14Helper, "return", "print(\"edited\")\n\treturn", 1)}})
 			case 3:
 				c.Progs = append(c.Progs, c14Prog{Kind: "diamond", Main: "main.tsh", Files: map[string]string{
 					"main.tsh": "import (\n\ta \"a.tsh\"\n\tb \"b.tsh\"\n)\nprint(a.Fa(), b.Fb())\n",
-					"a.tsh":    "import c \"c.tsh\"\nfunc Fa() int {\n\treturn c.Twice(1)\n}\n", "b.tsh": "import c \"c.tsh\"\nfunc Fb() int {\n\treturn c.Twice(2)\n}\n", "c.tsh": c14Other}})
+					"a.tsh":    "import c \"c.tsh\"\nfunc Fa() int {\n\treturn c.Twice(1)\n}\n", "b.tsh": "import c \"c.tsh\"\nfunc Fb() int {\n\treturn c.Twice(2)\n}\n", "c.tsh": c14Other},
+					Alt: map[string]string{"c.tsh": strings.Replace(c14Other, "return", "print(\"edited\")\n\treturn", 1)}})
 			case 4:
 				if gen.Uniform(0, 1).Draw(t, "late-failure") == 1 {
 					// a program that is rejected late: the converter has already emitted (and counted) a lot when it fails
@@ -236,7 +271,14 @@ func TestC14(t *testing.T) {
 		}
 		ns := gen.Uniform(6, 30).Draw(t, "nsteps")
 		for i := 0; i < ns; i++ {
-			c.Steps = append(c.Steps, c14Step{Prog: gen.Uniform(0, np-1).Draw(t, "step-prog"), Target: []string{"bash", "batch"}[gen.Uniform(0, 1).Draw(t, "step-target")]})
+			st := c14Step{Prog: gen.Uniform(0, np-1).Draw(t, "step-prog"), Target: []string{"bash", "batch"}[gen.Uniform(0, 1).Draw(t, "step-target")]}
+			if len(c.Progs[st.Prog].Alt) > 0 {
+				st.Version = gen.Uniform(0, 1).Draw(t, "step-version")
+				if st.Version == 1 {
+					r.Class("history:imported-file-edited-in-place")
+				}
+			}
+			c.Steps = append(c.Steps, st)
 		}
 		// non-triviality of the history
 		nontrivial := false
